@@ -255,6 +255,15 @@ def run(res, tier):
     partial_calls_exclusive(res)
     # clause 2
     block_size_positive(facts, res)
+    res.rule("C08.4 which cells interact does not depend on where the group boundaries fall: a source cell's position in a group comes from that group's own lookup, or from a hole-free shortcut tested on that same group (rule C02.5 on the group wrapper)")
+    import c02
+    sub = tbf.Result("C02")
+    n4 = c02.position_provenance(facts, sub)
+    for i in sub.instances:
+        res.instance("C08.4.lookup-in-own-group", i["key"], i["at"], i["detail"])
+    for v in sub.violations:
+        res.violation("C08.4.lookup-in-own-group", v["file"], v["function"], v["key"], v["line"], v["msg"] + " - whether that happens depends on the block size and the grouping mode")
+    res.floor("C08.4", n4, 10, "accessor calls at looked-up positions")
 
 
 def block_size_positive(facts, res, R="C08.2.block-size-positive", only=None):
